@@ -31,11 +31,11 @@ RULE = (
     "strings, nil, undefined as limit/offset/cols). Every template is rendered synchronously and asynchronously. "
     "Non-trivial: some loop of the case has a window that is neither empty nor the whole collection, or a limit/offset "
     "that is zero, negative or huge, or offset:continue after an earlier loop over the same key, or a break/continue "
-    "that fires, or (tablerow) at least two rows."
+    "that fires, or (tablerow) at least two rows. Deepening round: iter also covers generators, sets, dict views, deque, custom Sequence/Mapping subclasses, str subclasses and Markup (which _to_iter branch each class takes); stack (model stream, Model/LoopStack.lean): templates whose loop bodies raise, hit context_depth_limit 4..7/30, break or continue, in strict/lax/warn, followed by loops reading their parentloop chain; observation = output buffer, error class, len(context.loops); non-trivial when a loop is nested or a body fails; tolerant (oracle only) kept."
 )
 TRUSTED_BASE = [
     "Lean 4.33 kernel; axioms subset of {propext, Classical.choice, Quot.sound}",
-    "hand-written models LiquidVerif/Model/Loop.lean (_to_iter, _to_int, _slice, stopindex, ForLoop and TableRow automata) and Model/LoopRender.lean (ForNode/TablerowNode/BlockNode/break/continue interpreter) of the anchored files",
+    "hand-written models LiquidVerif/Model/LoopStack.lean (context.loops as threaded state: RenderContext.loop/extend, per-node error suppression of render_with_context), LiquidVerif/Model/Loop.lean (_to_iter, _to_int, _slice, stopindex, ForLoop and TableRow automata) and Model/LoopRender.lean (ForNode/TablerowNode/BlockNode/break/continue interpreter) of the anchored files",
     "correspondence harness harness/props/c13.py + Driver/C13.lean: every case runs on the real code (sync and async) and on the model; the translation of a JSON case to Liquid source and to the model line (build_source / model_nodes) is trusted",
     "CPython itertools.islice, reversed(list(...)), int(), range, dict ordering — modelled as definitions, sampled by the slice/iter streams",
     "variable lookup, literal parsing and output of ints/strings/booleans by the real engine (the model receives the evaluated argument class: int / numeric str / non-numeric str / nil / undefined)",
@@ -47,8 +47,8 @@ ASSUMPTIONS = [
 ]
 MANIFEST = {
     "technique": "Lean 4 proof (list induction + linear integer arithmetic over the _slice window, ForLoop/TableRow automata and a for/tablerow/break/continue interpreter) + differential correspondence on rendered templates, exhaustive for small collections",
-    "text": "Theorems slice_visits_spec, slice_visits_indices, length_is_visited, slice_never_raises, reversed_spec, else_iff_empty, forloop_helpers, parentloop_is_enclosing, continue_offset, continue_visits_the_rest, continue_chain, stopindex_frame, tablerow_grid, tablerow_nowrap, tablerow_structure, break_honoured, continue_honoured, for_renders_spec hold for every collection, every integer limit/offset, every cols and every loop body, with no bound; the models are tied to loop.py/for_tag.py/tablerow_tag.py/context.py by direct calls of _slice and the drops and by rendering real templates (sync and async), exhaustively for small collections.",
-    "note": "Trusted: Lean kernel (axioms propext/Classical.choice/Quot.sound only), the hand models, the harness translation of cases to Liquid source, CPython islice/int/range semantics (sampled). Four defects of the original tree were repaired on fix-C13 (limit:0, negative limit, tablerow cols:0 row number, break before row separator); the model mirrors the repaired code.",
+    "text": "Theorems slice_visits_spec, slice_visits_indices, length_is_visited, slice_never_raises, reversed_spec, else_iff_empty, forloop_helpers, parentloop_is_enclosing, continue_offset, continue_visits_the_rest, continue_chain, stopindex_frame, tablerow_grid, tablerow_nowrap, tablerow_structure, break_honoured, continue_honoured, for_renders_spec, loop_stack_restored, template_loop_stack_restored, new_loop_parent, undefined_limit_visits_nothing hold for every collection, every integer limit/offset, every cols and every loop body, with no bound; the models are tied to loop.py/for_tag.py/tablerow_tag.py/context.py by direct calls of _slice and the drops and by rendering real templates (sync and async), exhaustively for small collections.",
+    "note": "Trusted: Lean kernel (axioms propext/Classical.choice/Quot.sound only), the hand models, the harness translation of cases to Liquid source, CPython islice/int/range semantics (sampled). Five defects of the original tree were repaired (fix-C13: limit:0, negative limit, tablerow cols:0 row number, break before row separator; fix2-C13: ForLoop left on the loop stack when extend raises); the models mirror the repaired code.",
 }
 
 FIELDS = ["index", "index0", "rindex", "rindex0", "first", "last", "length"]
@@ -1189,6 +1189,96 @@ def enc(v):
     return v if isinstance(v, bool) else str(v)
 
 
+EXOTIC = ["generator", "custom_sequence", "custom_mapping", "deque", "set", "frozenset", "dict_keys", "dict_items", "markup",
+          "str_subclass", "list_subclass", "ordered_dict", "chainmap", "drop_with_iter"]
+
+
+def exotic_model(py, n):
+    """the class of `_to_iter` the object falls into (Mapping first, then range, str, Sequence, else nothing)"""
+    if py in ("custom_mapping", "ordered_dict", "chainmap", "liquid_forloop"):
+        if py == "liquid_forloop":
+            return ["mapping_any"]
+        return coll("mapping", n)
+    if py in ("custom_sequence", "deque", "list_subclass"):
+        return seq_data(n)
+    if py in ("markup", "str_subclass"):
+        return ["str", "abcdefghij"[:n]]
+    return ["other", "none"]  # generators, sets, views, drops that only define __iter__: not Mapping/range/str/Sequence
+
+
+def exotic_value(py, n):
+    import collections
+    from collections import abc
+
+    items = list(range(1, n + 1))
+    pairs = [("k%d" % k, 10 + k) for k in range(n)]
+    if py == "generator":
+        return (x for x in items)
+    if py == "custom_sequence":
+        class S(abc.Sequence):
+            def __getitem__(self, i):
+                return items[i]
+
+            def __len__(self):
+                return len(items)
+
+        return S()
+    if py == "custom_mapping":
+        class M(abc.Mapping):
+            def __getitem__(self, k):
+                return dict(pairs)[k]
+
+            def __iter__(self):
+                return iter(dict(pairs))
+
+            def __len__(self):
+                return len(pairs)
+
+        return M()
+    if py == "deque":
+        return collections.deque(items)
+    if py == "set":
+        return set(items)
+    if py == "frozenset":
+        return frozenset(items)
+    if py == "dict_keys":
+        return dict(pairs).keys()
+    if py == "dict_items":
+        return dict(pairs).items()
+    if py == "markup":
+        from markupsafe import Markup
+
+        return Markup("abcdefghij"[:n])
+    if py == "str_subclass":
+        class T(str):
+            pass
+
+        return T("abcdefghij"[:n])
+    if py == "list_subclass":
+        class L(list):
+            pass
+
+        return L(items)
+    if py == "ordered_dict":
+        return collections.OrderedDict(pairs)
+    if py == "chainmap":
+        return collections.ChainMap(dict(pairs))
+    if py == "drop_with_iter":
+        class D:
+            def __iter__(self):
+                return iter(items)
+
+            def __len__(self):
+                return len(items)
+
+        return D()
+    if py == "liquid_forloop":
+        from liquid.builtin.tags.for_tag import ForLoop
+
+        return ForLoop("x", iter(items), n, None)
+    raise ValueError(py)
+
+
 class IterStream(Stream):
     """`LoopExpression._to_iter` on every class of object it distinguishes"""
 
@@ -1205,6 +1295,10 @@ class IterStream(Stream):
             out.append({"ss": ss, "obj": ["range", -3, 1]})
             for o in ("int", "none", "float", "bool"):
                 out.append({"ss": ss, "obj": ["other", o]})
+            # custom drops / lazy iterables: which `_to_iter` branch does each class of object take?
+            for py in EXOTIC:
+                for n in (0, 2, 3):
+                    out.append({"ss": ss, "py": py, "n": n, "obj": exotic_model(py, n)})
         return out
 
     def impl(self, case):
@@ -1212,7 +1306,8 @@ class IterStream(Stream):
         t = env.from_string("{% for i in a %}{% endfor %}")
         from liquid.context import RenderContext
 
-        it, length = t.nodes[0].expression._to_iter(py_value(case["obj"]), RenderContext(t))
+        value = exotic_value(case["py"], case["n"]) if "py" in case else py_value(case["obj"])
+        it, length = t.nodes[0].expression._to_iter(value, RenderContext(t))
         items = []
         for x in it:
             if isinstance(x, tuple):
@@ -1224,9 +1319,15 @@ class IterStream(Stream):
         return {"items": items, "length": length}
 
     def line(self, case):
+        if case["obj"][0] == "mapping_any":
+            return None  # a Mapping whose items are not (str, int): only the class dispatch is checked (oracle)
         return ["c13iter", case["ss"], model_obj(case["obj"])]
 
     def oracle(self, case, obs):
+        if case["obj"][0] == "mapping_any":
+            if obs["length"] != 9 or not all(x[0] == "p" for x in obs["items"]):
+                return ("iter|mapping", f"a Mapping object is not iterated as (key, value) pairs: {obs}")
+            return None
         exp = obj_items(case["obj"], case["ss"])
         got = [x[1] if x[0] != "p" else f"{x[1]}={x[2]}" for x in obs["items"]]
         if got != exp or obs["length"] != len(exp):
@@ -1304,8 +1405,194 @@ class TolerantStream(Stream):
         return [case["mode"], "head-err" if obs["head"].startswith("ERR") else "head-ok"]
 
 
+# ---- the loop stack under exceptions (Model/LoopStack.lean) --------------------------------------
+STACK_FAILS = ["{{ 1 | divided_by: 0 }}", "{% include 'nosuchtemplate' %}", "{% for z in (1..2) limit: 'q' %}{{ z }}{% endfor %}"]
+
+
+def stack_source(nodes, depth=0, fail_i=0):
+    out = []
+    for n in nodes:
+        t = n[0]
+        if t == "text":
+            out.append(n[1])
+        elif t == "fail":
+            out.append(STACK_FAILS[n[1] % len(STACK_FAILS)])
+        elif t == "ref":
+            path = "forloop" + ".parentloop" * n[1]
+            if n[2] == "defined":
+                out.append("{% if " + path + " %}P{% else %}-{% endif %}")
+            else:
+                out.append("{{ " + path + "." + n[2] + " }}")
+        elif t == "break":
+            out.append("{% break %}")
+        elif t == "continue":
+            out.append("{% continue %}")
+        elif t == "for":
+            out.append("{% for v" + str(depth) + " in (1.." + str(n[1]) + ") %}" + stack_source(n[2], depth + 1) + "{% endfor %}")
+        elif t == "tablerow":
+            out.append("{% tablerow w" + str(depth) + " in (1.." + str(n[1]) + ") %}" + stack_source(n[2], depth + 1) + "{% endtablerow %}")
+        else:
+            raise ValueError(n)
+    return "".join(out)
+
+
+def stack_model(nodes):
+    """a block (list) -> right-nested `seq`"""
+    def one(n):
+        t = n[0]
+        if t == "text":
+            return ["text", n[1]]
+        if t == "fail":
+            return ["fail"]
+        if t == "ref":
+            return ["ref", n[1], n[2]]
+        if t in ("break", "continue"):
+            return [t]
+        return [t, n[1], stack_model(n[2])]
+
+    if not nodes:
+        return ["nop"]
+    if len(nodes) == 1:
+        return one(nodes[0])
+    return ["seq", one(nodes[0]), stack_model(nodes[1:])]
+
+
+class StackStream(Stream):
+    """Loop-stack discipline under exceptions, as a model stream: templates whose loop bodies raise (suppressed in
+    lax/warn mode), hit the context depth limit, break or continue, followed by loops that read their parentloop
+    chain. Observation: the output buffer, the error class that ended the render (if any) and len(context.loops)
+    afterwards. Direct oracle: the loop stack is empty after the render, sync equals async, and in lax/warn mode the
+    output is the concatenation of every top-level node rendered alone (nothing leaks from one node to the next)."""
+
+    name = "stack"
+
+    def gen_block(self, rng, depth, in_loop):
+        nodes = []
+        for _ in range(rng.range(1, 3)):
+            r = rng.below(100)
+            if r < 40 and depth < 4:
+                kind = "tablerow" if rng.chance(25) else "for"
+                nodes.append([kind, rng.range(0, 3), self.gen_block(rng, depth + 1, in_loop or kind == "for")])
+            elif r < 55:
+                nodes.append(["fail", rng.below(3)])
+            elif r < 80:
+                nodes.append(["ref", rng.range(0, 3), rng.choice(["index", "length", "defined"])])
+            elif r < 88 and in_loop:
+                nodes.append([rng.choice(["break", "continue"])])
+            else:
+                nodes.append(["text", rng.choice(["a", "b", "c"])])
+        return nodes
+
+    def cases(self, ctx):
+        rng = ctx.rng_for("stack")
+        out = []
+        tails = [["for", 2, [["ref", 1, "defined"], ["ref", 1, "index"], ["ref", 0, "index"]]],
+                 ["for", 2, [["for", 2, [["ref", 2, "defined"], ["ref", 1, "index"], ["ref", 0, "index"]]]]],
+                 ["tablerow", 2, [["ref", 0, "defined"], ["for", 1, [["ref", 1, "defined"]]]]]]
+        # depth-limit ladder: n nested loops under every small limit, then a loop that reads its parentloop
+        for mode in ("lax", "warn", "strict"):
+            for limit in (4, 5, 6, 7):
+                for n in range(0, 5):
+                    for inner in ("text", "fail", "tablerow"):
+                        body = [["text", "x"]] if inner == "text" else ([["text", "x"], ["fail", 0]] if inner == "fail" else [["tablerow", 2, [["text", "y"]]]])
+                        for _ in range(n):
+                            body = [["text", "("], ["for", 2, body], ["text", ")"]]
+                        for tail in tails:
+                            out.append({"mode": mode, "limit": limit, "nodes": body + [["text", "|"], tail]})
+        for _ in range(ctx.scale(400, 6000)):
+            nodes = []
+            for _ in range(rng.range(1, 3)):
+                nodes += self.gen_block(rng, 0, False)
+            nodes = [n for n in nodes if n[0] not in ("break", "continue")]
+            out.append({"mode": rng.choice(["lax", "lax", "warn", "strict"]), "limit": rng.choice([5, 6, 7, 30]), "nodes": nodes + [["text", "|"], rng.choice(tails)]})
+        return out
+
+    def _run(self, case, nodes, is_async):
+        import asyncio
+        import warnings
+        from io import StringIO
+
+        from liquid import Environment, Mode
+        from liquid.exceptions import ContextDepthError, LiquidError
+
+        key = (case["mode"], case["limit"])
+        env = _ENVS.get(("stack",) + key)
+        if env is None:
+            class Env(Environment):
+                context_depth_limit = case["limit"]
+
+            env = Env(tolerance={"lax": Mode.LAX, "warn": Mode.WARN, "strict": Mode.STRICT}[case["mode"]])
+            _ENVS[("stack",) + key] = env
+        src = stack_source(nodes)
+        buf = StringIO()
+        err = None
+        loops = None
+        try:
+            t = env.from_string(src)
+            c = t.context_class(t, globals={})
+            with warnings.catch_warnings():
+                warnings.simplefilter("ignore")
+                try:
+                    if is_async:
+                        asyncio.run(t.render_with_context_async(c, buf))
+                    else:
+                        t.render_with_context(c, buf)
+                finally:
+                    loops = len(c.loops)
+        except ContextDepthError:
+            err = "depth"
+        except LiquidError:
+            err = "liquid"
+        except Exception as e:  # noqa: BLE001
+            err = "foreign:" + type(e).__name__
+        return {"out": buf.getvalue(), "err": err, "loops": loops, "src": src}
+
+    def impl(self, case):
+        a = self._run(case, case["nodes"], False)
+        b = self._run(case, case["nodes"], True)
+        a["async_same"] = (a["out"], a["err"], a["loops"]) == (b["out"], b["err"], b["loops"])
+        if case["mode"] != "strict":
+            a["alone"] = "".join(self._run(case, [n], False)["out"] for n in case["nodes"])
+        return a
+
+    def line(self, case):
+        return ["c13stack", "strict" if case["mode"] == "strict" else "lax", max(case["limit"] - 4, 0), [stack_model([n]) for n in case["nodes"]]]
+
+    def compare_view(self, case, obs):
+        return {"out": obs["out"], "err": obs["err"], "loops": obs["loops"]}
+
+    def oracle(self, case, obs):
+        if "src" not in obs:
+            obs = dict(obs, src="<model>", async_same=True)
+        if obs["loops"] not in (0, None):
+            return ("stack|loop-stack-not-restored", f"{obs['src']!r}: {obs['loops']} ForLoop object(s) left on context.loops after the render")
+        if not obs.get("async_same", True):
+            return ("stack|async-differs", f"{obs['src']!r}")
+        if obs["err"] and str(obs["err"]).startswith("foreign"):
+            return ("stack|raises-" + obs["err"][8:], f"{obs['src']!r}")
+        if case["mode"] != "strict" and "alone" in obs and obs["out"] != obs["alone"]:
+            return ("stack|later-loop-disturbed", f"{obs['src']!r} rendered {obs['out']!r}; its top-level nodes rendered one by one give {obs['alone']!r}")
+        return None
+
+    def nontrivial(self, case, obs):
+        return "(" in obs["src"] or "divided_by" in obs["src"] or obs["err"] is not None
+
+    def tags(self, case, obs):
+        return [case["mode"], f"limit{case['limit']}", "err:" + str(obs["err"])]
+
+    def shrink_candidates(self, case):
+        ns = case["nodes"]
+        for i in range(len(ns)):
+            yield dict(case, nodes=ns[:i] + ns[i + 1 :])
+        for i, n in enumerate(ns):
+            if n[0] in ("for", "tablerow"):
+                yield dict(case, nodes=ns[:i] + n[2] + ns[i + 1 :])
+                if n[1] > 1:
+                    yield dict(case, nodes=ns[:i] + [[n[0], n[1] - 1, n[2]]] + ns[i + 1 :])
+
+
 def streams(ctx):
-    sts = [SliceStream(), DropStream(), IterStream(), For1Stream(), TablerowStream(), ChainStream(), NestStream(), MalformedStream(), TolerantStream()]
+    sts = [SliceStream(), DropStream(), IterStream(), For1Stream(), TablerowStream(), ChainStream(), NestStream(), MalformedStream(), TolerantStream(), StackStream()]
     for st in sts:
         # the quick tier is ~10 s of single-core work; a process pool only pays off in the thorough tier
         st.parallel = ctx.tier == "thorough" and st.name in ("slice", "for1", "tablerow", "chain", "nest")
